@@ -156,8 +156,14 @@ pub fn exec_u(w: &mut World, op: &Op, rest: &str, env: &mut Env) {
             let sz = op.m.unsigned_abs() as usize;
             // a value of exactly `bits` bits whose content comes from a pool value
             let wide = |seed: &UBig, bits: usize| -> UBig {
-                let low = seed & UBig::ones(bits.min(4096));
-                (UBig::ONE << (bits - 1)) | (&low << ((bits / 3) % 1500)) | low
+                // the seed's bit pattern repeated over the whole width (dense top words), top bit set
+                let pat = (seed & UBig::ones(bits.min(4096))) | UBig::ONE;
+                let step = pat.bit_len() + (bits % 3);
+                let mut v = pat.clone();
+                while v.bit_len() < bits {
+                    v = (&v << step) ^ &pat;
+                }
+                (v & UBig::ones(bits - 1)) | (UBig::ONE << (bits - 1))
             };
             let r: UBig = match op.n.unsigned_abs() % 7 {
                 0 => {
@@ -335,6 +341,22 @@ pub fn exec_u(w: &mut World, op: &Op, rest: &str, env: &mut Env) {
             if form % 2 == 1 {
                 v -= UBig::ONE;
             }
+            // rounding edges of the conversions to f32 / f64: a tie at the last kept bit, decided (or not) by one
+            // sticky bit just below what the first extraction step looks at
+            let j = (next() % 4) as usize;
+            match op.m.unsigned_abs() % 8 {
+                4 if top >= 40 => v = (UBig::ONE << top) | (UBig::ONE << (top - 24)) | (UBig::ONE << (top - 31 - j)),
+                5 if top >= 70 => v = (UBig::ONE << top) | (UBig::ONE << (top - 53)) | (UBig::ONE << (top - 63 - j.min(top - 63))),
+                6 if top >= 60 => v = (UBig::ONE << top) | (UBig::ONE << (top - 24 - 29 * (j % 2))),
+                7 if top >= 40 => v = (UBig::ONE << top) | (UBig::ONE << (top - 23)) | (UBig::ONE << (top - 24)) | (UBig::ONE << (top - 31 - j)),
+                _ => {}
+            }
+            let f = v.to_f32();
+            env.emit_u64("v32", matches!(f, dashu_base::Approximation::Exact(_)) as u64);
+            env.emit_f32("f32", f.value());
+            let f = v.to_f64();
+            env.emit_u64("v64", matches!(f, dashu_base::Approximation::Exact(_)) as u64);
+            env.emit_f64("f64", f.value());
             w.u[dst] = v;
             env.res(Pool::U, dst);
         }
